@@ -55,6 +55,10 @@ add("C16","model_checking","explicit-state exploration of call histories on the 
     "All call sequences up to a depth bound over 18 operations (lint 6 texts in 2 languages, ignore a returned lint, apply a suggestion, import words, migrate everything to a new Linter through export/import, export-clear-import the ignore list, set configuration) on the natively compiled harper_wasm::Linter. Every lint result is checked for bounds, disjointness, problem text, JSON round trips, equality with a fresh core pipeline (minus exactly the ignored lints) and equality with a shadow instance that never exported/imported.",
     "operation alphabet and depth; JsValue-returning methods are wasm-only and left out", "§4.C16", "E2")
 
+add("C14","model_checking","explicit-state exploration of ignore/edit/export histories on the real IgnoredLints against a reference notion of 'neighbourhood'",
+    "For ~3000 documents (constructed near-identical-lint texts, every harvested seed, joined seeds): for every lint k (and every pair among the first four): ignore it; the lint is gone, every lint that differs in kind/message/suggestions or in the tokens within two characters is still there; for every edit of a menu of 11 (prepend word/sentence/quoted sentence/lone quote/paragraph, append, change a word before/after, change the nearest token outside the neighbourhood) whose premise holds (reference contexts equal), the corresponding lint of the edited text stays hidden; a serde_json round trip of the list changes nothing.",
+    "edit menu (depth 1; append-then-prepend compositions in the thorough tier); documents with at least two lints", "§4.C14", "E2")
+
 claimed = [C[k] for k in sorted(C)]
 na = [dict(property_id=p["id"], reason="check under construction in this build phase; not claimed until its command exists and passes on the unchanged tree")
       for p in props if p["id"] not in C]
@@ -65,7 +69,7 @@ m = dict(version=1,
              baseline_off_cmd="cd /repo && RUSTUP_TOOLCHAIN=stable-x86_64-unknown-linux-gnu cargo nextest run --workspace --no-fail-fast --offline",
              source_commits=[], add_only=True),
   engines=[dict(name="E1 text-space explorer", path="/verif/harness/hv/src/{pool,spaces,sweep,small}.rs", serves_properties=[k for k in sorted(C) if C[k]["engine"]=="E1"], kind_free_text="exhaustive enumeration of finite input spaces over the real parsers/linters in watchdog-supervised worker processes"),
-           dict(name="E2 history explorer", path="/verif/harness/hv/src/{e2,c11,c19}.rs", serves_properties=[k for k in sorted(C) if C[k]["engine"]=="E2"], kind_free_text="breadth-first enumeration of operation histories on long-lived real objects against reference models")],
+           dict(name="E2 history explorer", path="/verif/harness/hv/src/{e2,c11,c14,c19}.rs", serves_properties=[k for k in sorted(C) if C[k]["engine"]=="E2"], kind_free_text="breadth-first enumeration of operation histories on long-lived real objects against reference models")],
   checks=claimed, not_applicable=na,
   notes="Exit codes: 0 held (open known findings printed as KNOWN-FINDING lines), 1 violation (VIOLATION lines), 2 machinery failure. Known findings: /verif/known_findings.txt.")
 json.dump(m, open('/verif/MANIFEST.json','w'), indent=1)
